@@ -796,6 +796,19 @@ def padconst_dtype_probes(rng, tier):
                         "ok=bool(op.is_linear and r.dtype==op.range.dtype and np.array_equal(r,expected))\n" % (dd, mode, rd, dd, mode))
             ok, _ = _run(rp)
             out.append(C.Probe(ok, 'padconst-dtype-%s-to-%s' % (dd, rd), '%s across dtypes %s -> %s' % (mode, dd, rd), rp))
+    # .inverse carries the constant: for an operator that grows in one axis and shrinks in the other the inverse pads too
+    for c in (0.5, -2, 0.1):
+        for dd, rd in (('float64', 'float64'), ('float32', 'float64'), ('float64', 'float32')):
+            rp = pre + ("X=odl.uniform_discr([0,0],[2.0,4.0],(2,4),dtype=%r)\n"
+                        "op=odl.ResizingOperator(X,ran_shp=(4,2),offset=(1,1),pad_const=%r,discr_kwargs={'dtype':%r})\ninv=op.inverse\n"
+                        "want=np.array(np.array(%r,dtype=op.range.dtype),dtype=X.dtype)\n"
+                        "y=op.range.element(np.arange(1.,9).reshape(4,2))\nr=np.asarray(inv(y))\n"
+                        "expected=np.full((2,4),want); expected[:,1:3]=np.arange(1.,9).reshape(4,2)[1:3,:]\nobserved=r\n"
+                        "ok=bool(inv.pad_const==want and inv.pad_const.dtype==X.dtype and np.array_equal(r,expected.astype(X.dtype)))\n"
+                        % (dd, c, rd, c))
+            ok, _ = _run(rp)
+            out.append(C.Probe(ok, 'inverse-padconst', 'op.inverse pads with the operator constant (cast to its own range dtype): '
+                               'pad_const=%r, %s -> %s' % (c, dd, rd), rp))
     # array level: arr and out of different dtypes
     for ad, od in [('float32', 'float64'), ('int64', 'float64'), ('float64', 'complex128')]:
         for direction in DIRS:
@@ -822,7 +835,7 @@ def unchanged_axis_offset_probes(rng, tier):
         mn = [rng.choice([0.0, -1.0]), rng.choice([0.0, 3.0])]
         flags = rng.choice([False, True, [(True, False), (False, True)]])
         which = k % 3      # 0: scalar offset, axis 1 unchanged; 1: per-axis offset; 2: 1-d unchanged axis with an offset
-        mode = rng.choice(MODES[2:] + ['constant'])
+        mode = rng.choice(['constant', 'order0', 'order1'])     # legal for every padding length used here (n >= 2)
         if which == 2:
             off = rng.choice([1, 2, 3])
             rp = pre + ("X=odl.uniform_discr(%r,%r,%d,nodes_on_bdry=%r)\nop=odl.ResizingOperator(X,ran_shp=(%d,),offset=%d,pad_mode=%r,discr_kwargs={'nodes_on_bdry':%r})\n"
